@@ -121,7 +121,7 @@ def gen(rng, ne, ns):
         c["kind"] = "exact"
         c["units"] = rng.sample([1, 2, 4, 5], 2)
         cases.append(c)
-    for _ in range(ns):
+    for j in range(ns):
         spec = net.rand_feeder_spec(rng, max_lines=4, ctrl="manual", allow_tie=False, allow_mg=rng.random() < 0.6)
         if spec.get("mg"):                    # storage that is (re)initialised at the first step of an outage
             spec["mg"]["mode"] = rng.choice(["full", "survival", "limited"])
@@ -135,6 +135,10 @@ def gen(rng, ne, ns):
         cases.append({"kind": "seeded", "spec": spec, "n_inc": rng.choice([24, 36]), "dt": str(dt), "seed": rng.randint(0, 10 ** 6),
                       "rate": rng.choice([300.0, 800.0]) / float(dt), "units": units, "entry": rng.choice(["seq", "mc"]),
                       "step_unit": rng.choice([None, None, 3, 2])})
+        if j % 3 == 0:       # every combination of entry point and step unit is present in every run
+            cases[-1]["entry"] = "mc"; cases[-1]["step_unit"] = rng.choice([3, 2])
+        elif j % 3 == 1:
+            cases[-1]["entry"] = "seq"; cases[-1]["step_unit"] = rng.choice([3, 2])
     return cases
 
 
